@@ -63,7 +63,7 @@ def seeded_table():
     for m in sorted(glob.glob(os.path.join(VERIF, "seeded", "*", "meta.json"))):
         j = json.load(open(m))
         rows.append("| %s | %s | %s | %s | %s | %s |" % (os.path.basename(os.path.dirname(m)), j.get("property", ""), str(j.get("title", "")).replace("|", "/"),
-                                                    str(j.get("needs", "")).replace("|", "/")[:160], ", ".join(j.get("caught_by", [])) or "**missed**", str(j.get("how_caught", "")).replace("|", "/")[:200]))
+                                                    " ".join(str(j.get("needs", "")).replace("|", "/").split())[:160], ", ".join(j.get("caught_by", [])) or "**missed**", " ".join(str(j.get("how_caught", "")).replace("|", "/").split())[:220]))
     return "\n".join(rows) if len(rows) > 2 else "(seeded changes are being collected)"
 
 
